@@ -325,7 +325,7 @@ def decode(data: bytes, delimited: bool = True, mode: str = "strict") -> Result:
     """Decode bytes. Wire-level problems are reported as Uncatalogued('wire-error')."""
     try:
         frames = wire.dec_stream(data, delimited)
-    except wire.WireError as exc:
+    except (wire.WireError, UnicodeDecodeError, RecursionError) as exc:
         res = Result()
         res.error = Uncatalogued("wire-error", 0, 0, str(exc))
         return res
